@@ -464,11 +464,23 @@ def cause_of(tr, index):
 EXTRA = None   # set by c18: violations + coverage of the consumer part, merged into the verdict
 
 
-def check(ctx, pid, families, mc_cfgs, level="model_checking", extra_assumptions=None, close_stride=0):
+def check(ctx, pid, families, mc_cfgs, level="model_checking", extra_assumptions=None, close_stride=0, extra_mc=None):
     """Common body of the producer checks: role 1 model checking, role 2 behaviours + deterministic
     families, execution on the real producer, role 3 validation; verdict from the property's clauses."""
     clauses = CLAUSES[pid]
     st, tr, det = model_check(ctx, mc_cfgs)
+    for module, cfg, expect in (extra_mc or []):
+        r = ctx.tlc(module, cfg, timeout=1500, name=cfg.replace(".cfg", ""), deadlock=False)
+        if expect:
+            # non-vacuity run: the seeded variant of the model MUST violate the named property
+            if r.violated != expect and not (expect in r.out and "violated" in r.out):
+                raise vlib.Inconclusive("non-vacuity run %s did not violate %s" % (cfg, expect))
+        else:
+            ctx.need(r, "model checking " + cfg)
+        st += r.distinct
+        tr += r.generated
+        det.append({"module": module, "cfg": cfg, "distinct_states": r.distinct, "states_generated": r.generated,
+                    "expected_violation": expect or None})
     scenarios = []
     fam_counts = {}
     gen_stats = []
